@@ -644,7 +644,11 @@ def b_print(I, args, kw):
 
 
 def b_super(I, args, kw):
-    raise Unsupported("super()")
+    frames = getattr(I, "frames", [])
+    for owner, obj in reversed(frames):
+        if owner is not None and obj is not None:
+            return TheoryObj("super", fields={"cls": owner, "obj": obj})
+    raise Unsupported("super() outside a method")
 
 
 # ----------------------------------------------------------------------------------- str methods
